@@ -1613,6 +1613,8 @@ def check_passes(facts):
                             carried = "moved" if swapped else str(d_[3]["rv"].get("variant"))
                         elif d_ and d_[2] == "call":
                             carried = (d_[3].get("callee") or "?").split("::")[-1]
+                            if carried in ("replace", "take", "unwrap", "expect", "pop", "remove", "swap_remove", "into_inner"):
+                                carried = "moved"     # a node taken out of the tree by value
                 if v in spec.get("actions", []) and carried is not None and carried not in spec.get("replaces", []):
                     r.fail(key, "the pass %s replaces a node by `%s` (line %s), which is not one of its reviewed replacements %s: e.g. a "
                                 "one-character node rewritten into a two-node Cat after single-character loops were formed makes the loop "
